@@ -158,7 +158,25 @@ CHECKS.update({
 NOT_YET = {}
 
 
+# ---- scope added after the fourth seed round (DESIGN 12.8): each check also carries the obligation families its property depends on
+ADDED = {
+    'C01': ' Also configuration serde (K2): every body of an impl of a serde trait (Serialize, Deserialize, the visitors) is an entry point; an iterator type that never ends (repeat, cycle, from_fn, open range) is not progress.',
+    'C04': ' Values obtained by parsing: the five parser tables (every consumed subtag stored through its validator into its own slot) are part of the check.',
+    'C09': ' Equality of the parsed values is the derived structural one (all comparison impls derived) and the printers are the specified functions of the fields (emission automata).',
+    'C10': ' The re-parse clause: Display automata and the five parser tables re-read every printable state (including an empty value list under a key) into the slots it was printed from; all thirteen validators are exact.',
+    'C11': ' The formula reads "empty" as the stored None: the subtag validators store every spelling of und as None and one text per subtag (exactness + normalisation), Language::default/clear/TryFrom(None) give the empty language.',
+    'C13': ' The printers of Locale / ExtensionsMap / the extension lists (nothing is printed for empty extensions) and the core and dispatcher tables (the identifier ends at the first singleton) are part of the check.',
+    'C15': ' Comparison with a string must compare the stored text with the argument itself (not with a truncated / padded / re-encoded copy of it).',
+    'C16': ' The run-time half of locale! (re-parse of the emitted extension string) is decided on the code: Display automata and parser tables extracted from the MIR, not only the specification tables.',
+    'C17': ' A multiset field (private tags) must not be de-duplicated by any constructor or mutator.',
+    'C19': ' In the serde configuration itself: the Display automata of LanguageIdentifier and its subtags and the core parser table that re-reads their output.',
+}
+
+
 def main():
+    for k, extra in ADDED.items():
+        if extra.strip() not in CHECKS[k]['text']:
+            CHECKS[k]['text'] = CHECKS[k]['text'].rstrip() + extra
     props = [json.loads(l) for l in open(os.path.join(HERE, 'properties.jsonl'))]
     checks = []
     for p in props:
